@@ -15,10 +15,11 @@ func Do(h http.Handler, method, path, body string, hdr ...string) (status int, r
 		}
 	}()
 	var rd *strings.Reader
-	req := httptest.NewRequest(method, "http://mint"+path, nil)
+	// origin-form request target, as a server sees it from a real client (URL.String() is the path and query only)
+	req := httptest.NewRequest(method, path, nil)
 	if body != "\x00nobody" {
 		rd = strings.NewReader(body)
-		req = httptest.NewRequest(method, "http://mint"+path, rd)
+		req = httptest.NewRequest(method, path, rd)
 		req.Header.Set("Content-Type", "application/json")
 	}
 	for i := 0; i+1 < len(hdr); i += 2 {
